@@ -19,7 +19,7 @@ RULE = (
     "independently of the time dtype); 0..40 sorted spike times (int or "
     "float), each drawn with probability 1/2 exactly on a bound (incl. first and last) else "
     "anywhere inside or slightly outside the grid; cluster vector over a gapped alphabet; "
-    "n_chunks_kept 1..8; per selector up to 6 calls with count in {None,0,1,2,5,100}, requested "
+    "n_chunks_kept 1..8; per selector up to 6 calls with count in {None,0,-1,-5,1,2,5,100}, requested "
     "cluster list (empty, unknown ids, repeats), subset_chunks on/off, subset_spikes None or a "
     "generated id list; np.random seeded from the case before every call. Oracle (constraint "
     "style, valid for every random draw): strictly increasing output; membership in requested "
@@ -72,7 +72,7 @@ def _case(draw):
     calls = []
     for _ in range(draw(st.integers(1, 6))):
         calls.append({
-            'n': draw(st.sampled_from([None, 0, 1, 2, 5, 100])),
+            'n': draw(st.sampled_from([None, 0, 1, 2, 5, 100, -1, -5])),
             'cids': draw(st.lists(st.sampled_from(ALPH + [2, 9]), max_size=5)),
             'sc': draw(st.booleans()),
             'ss': draw(st.none() | st.lists(st.integers(0, max(0, n + 1)), max_size=n + 2,
